@@ -16,6 +16,7 @@ import (
 	"strings"
 
 	"cosmossdk.io/core/event"
+	corestore "cosmossdk.io/core/store"
 	"cosmossdk.io/log"
 	sdkmath "cosmossdk.io/math"
 	warpkeeper "github.com/bcp-innovations/hyperlane-cosmos/x/warp/keeper"
@@ -66,6 +67,10 @@ type Plan struct {
 	Fail  map[int]int // call index -> faultBefore|faultAfter
 	Calls []CallRec
 	Fired []int
+	// Store: the orbiter's own key-value store is a fault seam too (every Get/Has/Set/Delete/Iterator of the
+	// interposed keeper is a recorded call that can fail). Off unless a check asks for it, so that call indexes
+	// of the downstream seams alone stay what they were.
+	Store bool
 }
 
 func (p *Plan) hit(site string, req any) int {
@@ -74,6 +79,9 @@ func (p *Plan) hit(site string, req any) int {
 	if m := p.Fail[idx]; m != 0 {
 		p.Fired = append(p.Fired, idx)
 		if m == faultPanic && site != "bank.GetBalance" {
+			if strings.HasPrefix(site, "store.") {
+				panic("injected downstream panic at " + site + " (store)")
+			}
 			panic("injected downstream panic at " + site)
 		}
 		return m
@@ -95,6 +103,88 @@ func (b *ModeB) Reset(fail map[int]int) {
 }
 
 // ---- wrappers
+
+// fStoreService wraps the orbiter module's KVStoreService: a failing disk / state store as seen through the
+// error results of cosmossdk.io/core/store.KVStore. Sites are named by operation and by the first byte of the key
+// (the collection the call belongs to), e.g. "store.Has@11".
+type fStoreService struct {
+	inner corestore.KVStoreService
+	p     *Plan
+}
+
+func (s fStoreService) OpenKVStore(ctx context.Context) corestore.KVStore {
+	return fStore{s.inner.OpenKVStore(ctx), s.p}
+}
+
+type fStore struct {
+	inner corestore.KVStore
+	p     *Plan
+}
+
+func storeSite(op string, key []byte) string {
+	if len(key) == 0 {
+		return "store." + op + "@-"
+	}
+	return fmt.Sprintf("store.%s@%d", op, key[0])
+}
+
+func (s fStore) Get(key []byte) ([]byte, error) {
+	if s.p.Store && s.p.hit(storeSite("Get", key), nil) != faultNone {
+		return nil, errInjected
+	}
+	return s.inner.Get(key)
+}
+
+func (s fStore) Has(key []byte) (bool, error) {
+	if s.p.Store && s.p.hit(storeSite("Has", key), nil) != faultNone {
+		return false, errInjected
+	}
+	return s.inner.Has(key)
+}
+
+func (s fStore) Set(key, value []byte) error {
+	m := faultNone
+	if s.p.Store {
+		m = s.p.hit(storeSite("Set", key), nil)
+	}
+	if m == faultBefore {
+		return errInjected
+	}
+	err := s.inner.Set(key, value)
+	if m == faultAfter {
+		return errInjected // the write reached the store, its acknowledgement was lost
+	}
+	return err
+}
+
+func (s fStore) Delete(key []byte) error {
+	m := faultNone
+	if s.p.Store {
+		m = s.p.hit(storeSite("Delete", key), nil)
+	}
+	if m == faultBefore {
+		return errInjected
+	}
+	err := s.inner.Delete(key)
+	if m == faultAfter {
+		return errInjected
+	}
+	return err
+}
+
+func (s fStore) Iterator(start, end []byte) (corestore.Iterator, error) {
+	if s.p.Store && s.p.hit(storeSite("Iterator", start), nil) != faultNone {
+		return nil, errInjected
+	}
+	return s.inner.Iterator(start, end)
+}
+
+func (s fStore) ReverseIterator(start, end []byte) (corestore.Iterator, error) {
+	if s.p.Store && s.p.hit(storeSite("ReverseIterator", start), nil) != faultNone {
+		return nil, errInjected
+	}
+	return s.inner.ReverseIterator(start, end)
+}
 
 type fBank struct {
 	bankkeeper.Keeper
@@ -320,7 +410,7 @@ func installModeB(n *Node) *ModeB {
 	logger := log.NewNopLogger()
 	evs := fEvents{runtime.ProvideEventService(), p}
 	bank := fBank{app.BankKeeper, p}
-	k2 := orbiterkeeper.NewKeeper(cdc, authcodec.NewBech32Codec("noble"), logger, evs, runtime.NewKVStoreService(app.GetKey("orbiter")), app.OrbiterKeeper.Authority(), bank)
+	k2 := orbiterkeeper.NewKeeper(cdc, authcodec.NewBech32Codec("noble"), logger, evs, fStoreService{runtime.NewKVStoreService(app.GetKey("orbiter")), p}, app.OrbiterKeeper.Authority(), bank)
 	cctpC, err := forwardingctrl.NewCCTPController(logger, fCCTP{cctpkeeper.NewMsgServerImpl(app.CCTPKeeper), p})
 	must(err)
 	hypC, err := forwardingctrl.NewHyperlaneController(logger, fHyp{forwardingtypes.NewHyperlaneHandler(warpkeeper.NewMsgServerImpl(app.WarpKeeper), warpkeeper.NewQueryServerImpl(app.WarpKeeper)), p})
